@@ -203,6 +203,7 @@ impl Property for C19 {
             None => vec![b' ', b'\n', b'\t'],
         };
         sc.read_plan = gen_any_plan(rng, &sc.input.0.clone(), cfg.delim.is_none(), &sep);
+        add_neutral_xargs_opts(rng, &mut sc.opts);
         sc
     }
 
